@@ -20,6 +20,7 @@ NA = {
 
 # engine -> (kind text)
 ENGINES = {
+ "globalsim": (["C16"], "token scheduler over simgen-instrumented otel + internal/global with the real SDK installed as delegate; shadow-lock cycle detection"),
  "lifecycle": (["C15"], "token scheduler over simgen-instrumented sdk/trace, sdk/metric, sdk/log providers with stock processors/readers/exporters behind thin counting wrappers"),
  "metricsim": (["C02","C08","C12"], "token scheduler over simgen-instrumented sdk/metric and internal/aggregate; delta + cumulative ManualReader, optional PeriodicReader with scripted exporter; bit-decoded conservation oracle, joint collection points"),
  "spanlin": (["C10"], "token scheduler over simgen-instrumented sdk/trace; recording SpanProcessors; porcupine linearizability check against a sequential span model; runtime/trace toggled per seed block"),
@@ -28,6 +29,10 @@ ENGINES = {
 }
 
 CHECKS = {
+ "C16": dict(engine="globalsim",
+   text="seeded search over interleavings of goroutines that obtain tracers and meters from the global API, create instruments (same and different names, every synchronous kind plus observable counters), record bit-coded measurements, start/end spans, register and unregister callbacks, while another goroutine calls SetMeterProvider / SetTracerProvider / SetTextMapPropagator in any order; oracle: may/must windows around installation for measurements and spans, one probe measurement through every instrument object ever handed out, callbacks invoked exactly once per SDK collection unless unregistered, no panic, no deadlock (cycle in the shadow lock graph) and no call that never returns",
+   ref="DESIGN.md §3 C16",
+   note="process globals are put back between runs by an overlay-added reset function (build overlay only); 'no data race' is decided in its consequence form only"),
  "C15": dict(engine="lifecycle",
    text="seeded search over sequences and interleavings of Register/Unregister (of registered, unregistered and never-registered processors), Tracer/Meter/Logger creation, Start/End, Add, Emit, Collect, ForceFlush and Shutdown (repeated, concurrent, with background / cancelled / expiring contexts) on the three SDK providers with the stock processors, readers and exporters including nil exporters; oracle: may/must membership windows for span delivery, shutdown at most once ever and exactly once by the time Unregister / provider Shutdown returned nil, no-op tracers and nothing written by the stock exporters after Shutdown, no panic (including panics in SDK-spawned goroutines), no deadlock, no call that never returns",
    ref="DESIGN.md §3 C15",
